@@ -43,7 +43,12 @@ type c37Req struct {
 	Headers    []c37Hdr `json:"headers,omitempty"`
 	XFF        []string `json:"xff,omitempty"` // X-Forwarded-For lines sent by the client
 	Body       []byte   `json:"body,omitempty"`
-	Chunked    bool     `json:"chunked,omitempty"`
+	// BigBody > 0: the body is BigBody bytes of BigFill (kept out of the case JSON; aimed at the 5,000,000 byte limit of the ingest handlers)
+	BigBody int  `json:"big_body,omitempty"`
+	BigFill byte `json:"big_fill,omitempty"`
+	// ContentEnc: "" | gzip | zstd (Body really compressed that way) | gzip-label | zstd-label | br-label | deflate-label (opaque Body merely labelled)
+	ContentEnc string `json:"content_enc,omitempty"`
+	Chunked    bool   `json:"chunked,omitempty"`
 	AcceptGzip bool     `json:"accept_gzip,omitempty"`
 	Up         c37Up    `json:"up"`
 }
@@ -149,7 +154,15 @@ func genC37(t *rapid.T) c37Case {
 		r.Headers = rapid.SliceOfN(hdr(c37ReqNames), 0, 6).Draw(t, "headers")
 		r.XFF = rapid.SliceOfN(rapid.SampledFrom([]string{"10.1.2.3", "10.1.2.3, 172.16.0.9", "2001:db8::1", "203.0.113.7"}), 0, 2).Draw(t, "xff")
 		r.Body = body.Draw(t, "body")
-		r.Chunked = len(r.Body) > 0 && rapid.IntRange(0, 3).Draw(t, "chunked") == 0
+		if len(r.Body) > 0 && rapid.IntRange(0, 2).Draw(t, "hasenc") == 0 {
+			r.ContentEnc = rapid.SampledFrom([]string{"gzip", "zstd", "gzip-label", "zstd-label", "br-label", "deflate-label"}).Draw(t, "content_enc")
+		}
+		if rapid.IntRange(0, 149).Draw(t, "big") == 77 {
+			r.Body = nil
+			r.BigBody = rapid.SampledFrom([]int{4_999_999, 5_000_000, 5_000_001, 5_000_001, 5_300_000}).Draw(t, "bigsize")
+			r.BigFill = byte(rapid.IntRange(1, 255).Draw(t, "bigfill"))
+		}
+		r.Chunked = (len(r.Body) > 0 || r.BigBody > 0) && rapid.IntRange(0, 3).Draw(t, "chunked") == 0
 		r.AcceptGzip = rapid.IntRange(0, 3).Draw(t, "acceptgzip") == 0
 		if rapid.IntRange(0, 11).Draw(t, "redir") == 0 {
 			r.Up.Status = rapid.SampledFrom(c37Redirs).Draw(t, "rstatus")
@@ -290,10 +303,30 @@ func execC37(c c37Case) vkit.Result {
 		for _, x := range r.XFF {
 			hdr = append(hdr, [2]string{"X-Forwarded-For", x})
 		}
-		wire := r.Body
+		// payload = the bytes of the message body as the client means them (after any
+		// content coding it applied itself); a proxy relays exactly these
+		payload := r.Body
+		if r.BigBody > 0 {
+			payload = bytes.Repeat([]byte{r.BigFill}, r.BigBody)
+		}
+		switch r.ContentEnc {
+		case "gzip":
+			payload = rtGzip(payload)
+		case "zstd":
+			payload = rtZstd(payload)
+		}
+		if r.ContentEnc != "" {
+			reqHeaders = append(reqHeaders, c37Hdr{"Content-Encoding", strings.TrimSuffix(r.ContentEnc, "-label")})
+			hdr = append(hdr, [2]string{"Content-Encoding", strings.TrimSuffix(r.ContentEnc, "-label")})
+			res.Class("request-content-encoding=" + r.ContentEnc)
+		}
+		if r.BigBody > 0 {
+			res.Class("request-body-around-5MB")
+		}
+		wire := payload
 		if r.Chunked {
 			hdr = append(hdr, [2]string{"Transfer-Encoding", "chunked"})
-			wire = c37Chunk(r.Body)
+			wire = c37Chunk(payload)
 		}
 		addr := node.Addr(r.Listener)
 		resp, err := rtRawRoundTrip(addr, rtBuildRequest(r.Method, target, addr, hdr, wire), r.Method, 8*time.Second)
@@ -330,8 +363,14 @@ func execC37(c c37Case) vkit.Result {
 		if u.RequestURI != target {
 			res.Violate("C37/request/target", "%s: upstream saw request target %q", where, u.RequestURI)
 		}
-		if !bytes.Equal(u.Body, r.Body) {
-			res.Violate("C37/request/body", "%s: upstream saw a %d byte body %q, client sent %d bytes %q", where, len(u.Body), rtClip(u.Body, 80), len(r.Body), rtClip(r.Body, 80))
+		if !bytes.Equal(u.Body, payload) {
+			kind := "plain"
+			if r.ContentEnc != "" {
+				kind = "content-encoded"
+			} else if len(payload) > 5_000_000 {
+				kind = "over-5MB"
+			}
+			res.Violate("C37/request/body/"+kind, "%s (Content-Encoding %q): upstream saw a %d byte body %q, client sent %d bytes %q", where, r.ContentEnc, len(u.Body), rtClip(u.Body, 80), len(payload), rtClip(payload, 80))
 		}
 		want, order := c37Group(reqHeaders)
 		multiReq := false
@@ -420,7 +459,7 @@ func execC37(c c37Case) vkit.Result {
 		if len(r.XFF) > 0 {
 			res.Class(fmt.Sprintf("client-xff-lines=%d", len(r.XFF)))
 		}
-		if len(r.Body) > 0 && (multiReq || multiResp) {
+		if len(payload) > 0 && (multiReq || multiResp) {
 			res.NonTrivial = true
 		}
 	}
@@ -433,7 +472,7 @@ func execC37(c c37Case) vkit.Result {
 func TestC37(t *testing.T) {
 	vkit.Run(t, vkit.Spec[c37Case]{
 		ID:   "C37",
-		Rule: "fresh incoming+peer Router per case, proxy target = scripted fake Honeycomb; 1-4 raw HTTP/1.1 requests per case: 7 methods x 20 unhandled path templates with percent-encoded segments, raw query strings, 0-6 end-to-end headers (repeats give multi-valued headers), 0-2 client X-Forwarded-For lines, empty/JSON/binary/64KiB bodies (optionally chunked); upstream script: status (2xx/4xx/5xx, 3xx with Location), 0-6 headers, body, gzip body when the client asked for it. Oracle: upstream saw identical method, request target, body, every client header value (list semantics), X-Forwarded-For = client entries + client address, nothing else but transport artefacts; client saw identical status, body and every upstream header value. Non-trivial: a request with a body and a multi-valued request or response header.",
+		Rule: "fresh incoming+peer Router per case, proxy target = scripted fake Honeycomb; 1-4 raw HTTP/1.1 requests per case: 7 methods x 20 unhandled path templates with percent-encoded segments, raw query strings, 0-6 end-to-end headers (repeats give multi-valued headers), 0-2 client X-Forwarded-For lines, empty/JSON/binary/64KiB bodies (optionally chunked; a third with Content-Encoding gzip/zstd really applied or gzip/zstd/br/deflate as a label on opaque bytes; about 1 in 150 plus one replayed case with 4,999,999-5,300,000 bytes); upstream script: status (2xx/4xx/5xx, 3xx with Location), 0-6 headers, body, gzip body when the client asked for it. Oracle: upstream saw identical method, request target, body, every client header value (list semantics), X-Forwarded-For = client entries + client address, nothing else but transport artefacts; client saw identical status, body and every upstream header value. Non-trivial: a request with a body and a multi-valued request or response header.",
 		Assumptions: []string{
 			"several field lines of one header and their comma-joined form are equivalent (RFC 9110 5.3)",
 			"hop-by-hop headers, Host, Set-Cookie, Expect and 1xx responses are outside the generator; paths are clean (no '//' or dot segments, which the mux answers itself with 301)",
